@@ -520,3 +520,37 @@ def run(ctx):
 
 # evidence: how the model is tied to the source on every run (as built, supersedes the value above)
 TIE = 'translator (peak-only series -> Gen/PeakSeries, power-law functions -> Gen/ImPower; Props/C13GenSeries, C13Gen) + correspondence'
+
+
+# ---- round-4 lesson: shift independence with integer offsets beyond 2^53 -----------------------------------------------------------------
+
+def extras_shift(ctx):
+    """both peak-only series are independent of a constant shift -- for integer series also when the shift is far beyond 2^53 (an int64
+    series with a level of 2^60 is exact in its own dtype; a detour through float64 is not)"""
+    from eqsig.fns import peaks_and_crossings as pc
+    rng = ctx.rng
+    for it in range(12 if ctx.tier == 'quick' else 120):
+        n = gen.log_int(rng, 3, 40)
+        v = gen.int_record(rng, n, -9, 9)
+        if len(set(v.tolist())) < 2:
+            continue
+        base = (call_impl(pc.determine_peaks_only_delta_series, v), call_impl(pc.determine_pseudo_cyclic_peak_only_series, v))
+        for off in (2 ** 60, -(2 ** 61), 2 ** 55 + 1):
+            w = v.astype(np.int64) + np.int64(off)
+            ctx.hist('shift/int64 offset beyond 2^53')
+            got = (call_impl(pc.determine_peaks_only_delta_series, w), call_impl(pc.determine_pseudo_cyclic_peak_only_series, w))
+            for nm, b, g in zip(('delta series', 'pseudo-cyclic series'), base, got):
+                ok = b[0] == g[0] and (b[0] != 'ok' or (np.shape(b[1]) == np.shape(g[1]) and bool(np.all(np.asarray(b[1], dtype=float) == np.asarray(g[1], dtype=float)))))
+                ctx.oracle('C13.c both series invariant under a constant shift (int64 series shifted by an offset beyond 2^53: %s)' % nm, ok,
+                           {'values': v.tolist(), 'offset': off, 'dtype': 'int64'},
+                           detail=None if ok else {'unshifted': b[1] if b[0] != 'ok' else np.asarray(b[1], dtype=float).tolist()[:10],
+                                                   'shifted': g[1] if g[0] != 'ok' else np.asarray(g[1], dtype=float).tolist()[:10]})
+
+
+_run_main_sh = run
+
+
+def run(ctx):
+    _run_main_sh(ctx)
+    extras_shift(ctx)
+    ctx.flush()
